@@ -49,13 +49,31 @@ def plan(tier, seed):
 def floors(tier):
     return {"distinct_nontrivial": 200, "unwind.close": 200, "unwind.exc": 50, "op:full": 500, "op:take": 100,
             "op:abandon": 100, "op:drop": 100, "op:boom_raised": 50, "op:the": 50, "cls:dup_domain": 50,
-            "cls:caching_off": 100, "cache.check.hit": 500, "cls:ruletree_history": 100, "cls:shared_expression_pool": 60}
+            "cls:caching_off": 100, "cache.check.hit": 500, "cls:ruletree_history": 100, "cls:shared_expression_pool": 60, "cls:twin:nexttree": 40, "cls:twin:kwvar": 40}
 
 
 def cases(spec, ctx):
     from . import c12
     for i in range(spec["n"]):
         rng = ctx.rng(spec["sub"], i)
+        if rng.random() < 0.12:
+            # query shapes whose answer is defined by a FRESH twin (built and evaluated once): a rule tree with next_rule
+            # (its "also" semantics is outside C12) and a rule over domain-less variables with keyword constraints
+            ops = []
+            for _ in range(rng.randint(2, 6)):
+                kind = rng.choice(["full", "full", "take", "abandon", "drop"])
+                ops.append([kind, 0] if kind == "full" else [kind, 0, rng.randint(1, 3)])
+            twin = rng.choice(["nexttree", "kwvar"])
+            if twin == "kwvar":
+                # an iterator that is kept alive but never advanced again is beyond the quantifier ("take k results then
+                # close"): a keyword-constrained variable marks itself while its constraints are being evaluated and a
+                # suspended evaluation holds that mark (DESIGN 9.5) - closed and dropped iterators are in scope
+                ops = [["take"] + o[1:] if o[0] == "abandon" else o for o in ops]
+            yield {"twin": twin, "ops": ops, "caching": rng.random() < 0.65,
+                   "data": [[rng.randint(1, 4) for _ in range(3)] for _ in range(rng.randint(3, 6))],
+                   "conds": [[rng.choice("abc"), rng.randint(0, 3)], [rng.choice("abc"), rng.randint(0, 3)]],
+                   "links": [[rng.randrange(6), rng.randrange(6)] for _ in range(rng.randint(2, 5))]}
+            continue
         if rng.random() < 0.1:
             # queries of a pool may also share an attribute EXPRESSION object, used as a condition by one and as a value
             # (comparison operand / selected output) by another
@@ -293,6 +311,76 @@ def check_ruletree_case(case, ctx):
     ctx.sample({"ruletree": case["ruletree"], "ops": case["ops"], "history_log": log})
 
 
+def _twin_builder(case):
+    """-> (build() -> query, encode(result) -> hashable)"""
+    from entity_query_language import symbolic_mode, let, entity, infer, Add, a
+    from entity_query_language.rule import next_rule
+    from entity_query_language.symbolic import rule_mode
+    from . import c12
+    objs = [c12.N(*v) for v in case["data"]]
+    idx = {id(o): i for i, o in enumerate(objs)}
+    (a1, t1), (a2, t2) = case["conds"]
+    if case["twin"] == "nexttree":
+        def build():
+            with symbolic_mode():
+                x = let(c12.N, objs)
+                y = let(c12.N, objs)
+                out = let(c12.Out)
+                q = infer(entity(out, getattr(x, a1) > t1))
+            with rule_mode(q):
+                Add(out, c12.Out(tag="base", src=x))
+                with next_rule(getattr(y, a2) > t2):
+                    Add(out, c12.Out(tag="next", src=y))
+            return q
+        return build, lambda o: (type(o).__name__, getattr(o, "tag", None), idx.get(id(getattr(o, "src", None)), -1))
+    links = [c12.L(src=objs[i % len(objs)], w=objs[j % len(objs)]) for i, j in case["links"]]     # w holds a second item
+
+    def build():
+        with rule_mode():
+            q = infer(c12.Out(tag="linked", src=a(p := c12.N())), c12.L(src=p, w=a(o := c12.N())), getattr(o, a1) > t1)
+        return q
+    return build, lambda o: (type(o).__name__, getattr(o, "tag", None), idx.get(id(getattr(o, "src", None)), -1))
+
+
+def check_twin_case(case, ctx):
+    from entity_query_language.cache_data import enable_caching, disable_caching
+    ctx.cls("cls:twin:" + case["twin"])
+    (enable_caching if case["caching"] else disable_caching)()
+    log, keep = [], []
+    try:
+        build, enc = _twin_builder(case)
+        want = Counter(enc(o) for o in build().evaluate())      # the answer: a fresh query evaluated once
+        q = build()
+        for step, op in enumerate(list(case["ops"]) + [["full", 0], ["full", 0]]):
+            if op[0] == "full":
+                got = Counter(enc(o) for o in q.evaluate())
+                log.append(["full", sum(got.values())])
+                if got != want:
+                    ctx.fail("DIFFERS_FROM_FRESH_EVALUATION", {"history_log": log, "missing": list((want - got).elements())[:6],
+                                                               "extra": list((got - want).elements())[:6], "shape": case["twin"]})
+                    return
+            else:
+                it = q.evaluate()
+                taken = [enc(o) for o in itertools.islice(it, op[2])]
+                log.append([op[0], len(taken)])
+                if Counter(taken) - want:
+                    ctx.fail("PARTIAL_ROW_NOT_A_SOLUTION", {"history_log": log, "rows": taken})
+                    return
+                if op[0] == "take":
+                    it.close()
+                elif op[0] == "abandon":
+                    keep.append(it)
+                else:
+                    del it
+                    gc.collect()
+        if len(want) >= 2 and any(e[0] != "full" for e in log):
+            ctx.nontrivial()
+    finally:
+        enable_caching()
+        keep.clear()
+    ctx.sample({"shape": case["twin"], "ops": case["ops"], "history_log": log, "rows": sum(want.values())})
+
+
 def check_shared_expr_case(case, ctx):
     from entity_query_language import symbolic_mode, an, entity, set_of, let
     from entity_query_language.cache_data import enable_caching, disable_caching
@@ -348,6 +436,8 @@ def check_shared_expr_case(case, ctx):
 
 
 def check_case(case, ctx):
+    if "twin" in case:
+        return check_twin_case(case, ctx)
     if "shared_expr" in case:
         return check_shared_expr_case(case, ctx)
     if "ruletree" in case:
@@ -387,7 +477,7 @@ def check_case(case, ctx):
 def classify(f, ctx):
     """K05 / K02 inside a history: the whole history is re-run under the counterfactual configuration."""
     case = f["case"]
-    if f["kind"] != "SET:missing" or "ruletree" in case or "shared_expr" in case:
+    if f["kind"] != "SET:missing" or "ruletree" in case or "shared_expr" in case or "twin" in case:
         return None
     from ..shard import reset_eql_state
 
